@@ -164,6 +164,9 @@ def main(argv=None):
     watchdog = []
     crashes_other = collections.Counter()
     n_eval = 0
+    slow = sorted(((r.get("_secs", 0), i) for i, r in results.items()), reverse=True)[:3]
+    slowest = [{"seconds": sec, "algo": all_cases[i].get("algo"), "part": all_cases[i].get("part"),
+                "n": all_cases[i].get("n"), "T": all_cases[i].get("T")} for sec, i in slow]
     for i, case in enumerate(all_cases):
         r = results.get(i)
         if r is None:
@@ -279,6 +282,7 @@ def main(argv=None):
         "crashes_ignored_by_this_check": dict(crashes_other),
         "workers": NPROC,
         "cases_run_again_after_a_wall_clock_watchdog": retried,
+        "slowest_cases": slowest,
     }
     for k, v in extra.items():
         if k not in ("obs", "evaluations", "sigs", "samples"):
@@ -294,6 +298,7 @@ def main(argv=None):
 
     print("%s tier=%s seed=%d: %d executions, %d distinct non-trivial, observed %s, max %s, %.1fs" % (
         prop, tier, a.seed, n_eval, len(nontriv_sigs), dict(obs_sum), obs_max, wall_s))
+    print("  slowest cases: %s" % slowest)
     if crashes_other:
         print("  (crashes seen but owned by C01, not judged here: %s)" % dict(crashes_other))
     if viol_lines:
